@@ -61,7 +61,7 @@ Candidates(p) ==
        IN IF FieldFilter = {} THEN all ELSE all \cap FieldFilter
 
 Init ==
-  /\ op \in {[kind |-> k, fed |-> <<>>, sel |-> <<>>] : k \in {"query", "mutation"}}
+  /\ op \in {[kind |-> k, dv |-> "", fed |-> <<>>, sel |-> <<>>] : k \in {"query", "mutation"}}
   /\ base = op
   /\ phase = "build"
   /\ steps = <<>>
